@@ -66,6 +66,15 @@ func init() {
 			c18AllocReplay(c, a[1:])
 			return
 		}
+		if len(a) >= 1 && a[0] == "gw" {
+			sc, err := c18GwParse(a[1:])
+			if err != nil {
+				fmt.Fprintln(os.Stderr, "C18 replay:", err)
+				return
+			}
+			c18GwCase(c, sc)
+			return
+		}
 		if len(a) >= 1 && a[0] == "hist" {
 			h, err := c18HistParse(a[1:])
 			if err != nil {
@@ -476,94 +485,103 @@ func (e *c18Env) render() (map[string][]string, error) {
 
 // observe: the per path records of the given ingresses, from the model objects and the rendered sections
 func (e *c18Env) observe(sections map[string][]string, ings []c18Ing) ([]string, error) {
-	hconfig := e.hconfig
 	var out []string
 	for _, g := range ings {
-		hostname, path := c18Host(g.host), c18Paths[g.path]
-		host := hconfig.Hosts().FindHost(hostname)
-		if host == nil {
-			return nil, fmt.Errorf("host %s missing", hostname)
-		}
-		var hp *hatypes.HostPath
-		for _, p := range host.Paths {
-			if p.Path() == path {
-				if hp != nil {
-					return nil, fmt.Errorf("duplicated host path %s%s", hostname, path)
-				}
-				hp = p
-			}
-		}
-		if hp == nil {
-			return nil, fmt.Errorf("host path %s%s missing", hostname, path)
-		}
-		backend := hconfig.Backends().FindBackend(hp.Backend.Namespace, hp.Backend.Name, hp.Backend.Port)
-		if backend == nil {
-			return nil, fmt.Errorf("backend %s missing", hp.Backend.ID)
-		}
-		bp := backend.FindBackendPath(hp.Link)
-		if bp == nil {
-			return nil, fmt.Errorf("backend path of %s%s missing", hostname, path)
-		}
-		frec := "nil"
-		if hp.AuthExt != nil {
-			frec = c18Rec(hp.AuthExt)
-		}
-		// rendered rules
-		bsec, ok := sections["backend "+backend.ID]
-		if !ok {
-			return nil, fmt.Errorf("section of backend %s missing", backend.ID)
-		}
-		rb, err := c18Resolve(bsec, func(cd c18Cond) (bool, error) {
-			if cd.fetch == "var(txn.pathID)" && cd.method == "str" {
-				return c18In(cd.pats, bp.ID), nil
-			}
-			return false, fmt.Errorf("unexpected guard %q in backend section", cd.raw)
-		})
+		rec, _, err := e.observePath(sections, c18Host(g.host), c18Paths[g.path], g.match == 'e')
 		if err != nil {
 			return nil, err
 		}
-		var rf [2]string
-		samples := [2]string{hostname + "#" + path, hostname + "#" + path + "/sub"}
-		if g.match == 'e' {
-			samples[1] = samples[0]
-		}
-		for k, base := range samples {
-			var all []string
-			names := make([]string, 0, 2)
-			for name := range sections {
-				if name == "frontend _front_http" || name == "frontend _front_https" || strings.HasPrefix(name, "frontend _front_https__") {
-					names = append(names, name)
-				}
-			}
-			sort.Strings(names)
-			var per []string
-			for _, name := range names {
-				r, err := c18Resolve(sections[name], func(cd c18Cond) (bool, error) {
-					if cd.fetch == "var(req.base)" {
-						return c18ACL(cd.method, cd.pats, base)
-					}
-					return false, fmt.Errorf("unexpected guard %q in %s", cd.raw, name)
-				})
-				if err != nil {
-					return nil, err
-				}
-				per = append(per, r)
-			}
-			// both the plain and the TLS frontend carry the rules: they must agree
-			for _, r := range per {
-				if r != per[0] {
-					return nil, fmt.Errorf("frontends disagree on %s: %v", base, per)
-				}
-			}
-			if len(per) == 0 {
-				return nil, fmt.Errorf("no http frontend rendered")
-			}
-			all = append(all, per[0])
-			rf[k] = strings.Join(all, "+")
-		}
-		out = append(out, fmt.Sprintf("B=%s;F=%s;RB=%s;R0=%s;R1=%s", c18Rec(&bp.AuthExternal), frec, rb, rf[0], rf[1]))
+		out = append(out, rec)
 	}
 	return out, nil
+}
+
+// observePath: the record of one path (`exact`: the request sample below the path is the path itself)
+// and the id of the backend that serves it
+func (e *c18Env) observePath(sections map[string][]string, hostname, path string, exact bool) (string, string, error) {
+	hconfig := e.hconfig
+	host := hconfig.Hosts().FindHost(hostname)
+	if host == nil {
+		return "", "", fmt.Errorf("host %s missing", hostname)
+	}
+	var hp *hatypes.HostPath
+	for _, p := range host.Paths {
+		if p.Path() == path {
+			if hp != nil {
+				return "", "", fmt.Errorf("duplicated host path %s%s", hostname, path)
+			}
+			hp = p
+		}
+	}
+	if hp == nil {
+		return "", "", fmt.Errorf("host path %s%s missing", hostname, path)
+	}
+	backend := hconfig.Backends().FindBackend(hp.Backend.Namespace, hp.Backend.Name, hp.Backend.Port)
+	if backend == nil {
+		return "", "", fmt.Errorf("backend %s missing", hp.Backend.ID)
+	}
+	bp := backend.FindBackendPath(hp.Link)
+	if bp == nil {
+		return "", "", fmt.Errorf("backend path of %s%s missing", hostname, path)
+	}
+	frec := "nil"
+	if hp.AuthExt != nil {
+		frec = c18Rec(hp.AuthExt)
+	}
+	// rendered rules
+	bsec, ok := sections["backend "+backend.ID]
+	if !ok {
+		return "", "", fmt.Errorf("section of backend %s missing", backend.ID)
+	}
+	rb, err := c18Resolve(bsec, func(cd c18Cond) (bool, error) {
+		if cd.fetch == "var(txn.pathID)" && cd.method == "str" {
+			return c18In(cd.pats, bp.ID), nil
+		}
+		return false, fmt.Errorf("unexpected guard %q in backend section", cd.raw)
+	})
+	if err != nil {
+		return "", "", err
+	}
+	var rf [2]string
+	samples := [2]string{hostname + "#" + path, hostname + "#" + path + "/sub"}
+	if exact {
+		samples[1] = samples[0]
+	}
+	for k, base := range samples {
+		var all []string
+		names := make([]string, 0, 2)
+		for name := range sections {
+			if name == "frontend _front_http" || name == "frontend _front_https" || strings.HasPrefix(name, "frontend _front_https__") {
+				names = append(names, name)
+			}
+		}
+		sort.Strings(names)
+		var per []string
+		for _, name := range names {
+			r, err := c18Resolve(sections[name], func(cd c18Cond) (bool, error) {
+				if cd.fetch == "var(req.base)" {
+					return c18ACL(cd.method, cd.pats, base)
+				}
+				return false, fmt.Errorf("unexpected guard %q in %s", cd.raw, name)
+			})
+			if err != nil {
+				return "", "", err
+			}
+			per = append(per, r)
+		}
+		// both the plain and the TLS frontend carry the rules: they must agree
+		for _, r := range per {
+			if r != per[0] {
+				return "", "", fmt.Errorf("frontends disagree on %s: %v", base, per)
+			}
+		}
+		if len(per) == 0 {
+			return "", "", fmt.Errorf("no http frontend rendered")
+		}
+		all = append(all, per[0])
+		rf[k] = strings.Join(all, "+")
+	}
+	return fmt.Sprintf("B=%s;F=%s;RB=%s;R0=%s;R1=%s", c18Rec(&bp.AuthExternal), frec, rb, rf[0], rf[1]), backend.ID, nil
 }
 
 // c18Run returns the implementation output of one scenario.  With pad, three extra ingresses
@@ -1234,6 +1252,10 @@ func c18Random(r *gen.Rng) *c18Scenario {
 }
 
 func runC18(c *ctx) {
+	if os.Getenv("C18_ONLY") == "gw" { // debugging aid: the gateway mode alone
+		runC18Gw(c)
+		return
+	}
 	// ---- corpus: minimised findings first
 	corpus := []string{
 		// fixed 4d834ab: buildBackendOAuth cleared the deny that a malformed auth-url armed
@@ -1384,4 +1406,7 @@ func runC18(c *ctx) {
 
 	// ---- histories: full sync + commit, then partial syncs (c18hist.go)
 	runC18Hist(c)
+
+	// ---- gateway mode: Service annotations through HTTPRoutes, backends reached more than once (c18gw.go)
+	runC18Gw(c)
 }
